@@ -10,9 +10,11 @@ import (
 	"fmt"
 	"io"
 	"runtime"
+	"time"
 
 	"github.com/theparanoids/ysshra/agent/yubiagent"
 	"github.com/theparanoids/ysshra/internal/zzverif/ev"
+	"github.com/theparanoids/ysshra/internal/zzverif/introspect"
 	"github.com/theparanoids/ysshra/zzverifrt/vnet"
 )
 
@@ -91,7 +93,12 @@ func c12Build(k c12Case) (stream []byte, frames []c12Parsed) {
 
 var c12ByBody = map[string]frameSpec{}
 
+var c12Wedged bool // a stream wedged the server once: the rest of the enumeration is skipped (each case would wait out the watchdog)
+
 func c12Run(c *ev.Ctx, k c12Case, single bool) {
+	if c12Wedged {
+		return
+	}
 	c.Eval()
 	c.Crumb(k)
 	stream, frames := c12Build(k)
@@ -125,7 +132,28 @@ func c12Run(c *ev.Ctx, k c12Case, single bool) {
 	if hasOversize {
 		runtime.ReadMemStats(&m0)
 	}
-	pn := ev.Guard(func() { serveErr = yubiagent.ServeAgent(w.srv, rw{bytes.NewReader(stream), &out}) })
+	var pn string
+	{
+		// the stream is finite and the peer never waits, so serving it ends; a watchdog turns a wedged server (a lock
+		// left held by an earlier request, a wait nobody ends) into a violation instead of a hung check
+		done := make(chan struct{})
+		go func() {
+			pn = ev.Guard(func() { serveErr = yubiagent.ServeAgent(w.srv, rw{bytes.NewReader(stream), &out}) })
+			close(done)
+		}()
+		select {
+		case <-done:
+		case <-time.After(180 * time.Second):
+			c.Violation("C12:service-never-ends", "serving a finite byte stream did not end within 180 s (a few milliseconds are normal): the server is wedged", k)
+			c12Wedged = true
+			c.Cap("enumeration stopped after a stream wedged the server")
+			return
+		}
+	}
+	if held := introspect.LocksHeld(w.srv); len(held) > 0 && pn == "" {
+		c.Violation("C12:lock-left-held", fmt.Sprintf("serving the stream returned with %v still held: the next request on any connection would block for ever", held), k)
+		return
+	}
 	if hasOversize {
 		runtime.ReadMemStats(&m1)
 		if grew := m1.TotalAlloc - m0.TotalAlloc; grew > 1<<20+uint64(len(stream))*8 {
